@@ -540,6 +540,10 @@ def run(ctx, rep):
         rep.ob("A3", not probs, where, getter, construct="%s path of the alphabet filter" % kind,
                how="included iff order <= capacity and key != '?'", witness="; ".join(probs) or None, nontrivial=True,
                key="filter/%s/%s" % (kind, "ok" if not probs else probs[0][:40]))
+    if lp["breaks"]:
+        rep.ob("A3", False, node, getter, construct="loop over the table's entries", how="every entry is visited",
+               witness="the loop over the constraint table can stop early (break): entries listed after that point contribute no symbols",
+               nontrivial=True, key="filter/early-exit")
     kinds = {k[0] for k in agg}
     if kinds != {"include", "skip"}:
         rep.ob("A3", False, node, getter, construct="alphabet filter", witness="expected an including and a skipping path, found %s" % sorted(kinds))
